@@ -439,6 +439,11 @@ bool Instance::configure_tx_txin() {
                 fprintf(stderr, "sig script did not contain a push op as expected\n");
                 return false;
             }
+            if (it2 != scriptSig.end() || scriptSig != (CScript() << pushval)) {
+                // BIP141: for a P2SH-wrapped witness program the scriptSig must be exactly one push of the redeem script
+                fprintf(stderr, "sig script must be exactly a push of the witness program (got %s)\n", HexStr(scriptSig).c_str());
+                return false;
+            }
             validation = CScript(pushval.begin(), pushval.end());
             hashsrc = Value(pushval);
             CScript::const_iterator it = scriptPubKey.begin();
